@@ -3,6 +3,11 @@ C10 — property theorems about the span LTS (Model.lean) of the code as it is n
 interleaving of any number of goroutines calling End (with any timestamps), the mutators, child Start, the accessors
 and Register/UnregisterSpanProcessor; every span-limit configuration; with (`hasTask = true`) and without a
 runtime/trace task. The label order of the ORIGINAL code (`stepOld`, defect F7) is refuted by a witness schedule.
+
+Data-race freedom is NOT a theorem here (the LTS has no notion of unsynchronised access): it is an observation of the Go
+race detector. One race is known on the current tree — F36, `Spec.F36_applies`: a reader of an exported snapshot's
+attributes vs `Attributes()` on the ended span, which rewrites the shared backing array in place — and is reproduced on
+every run by the `attrrace` leg.
 -/
 import Otel.C10.Lemmas
 import Otel.C10.Lemmas2
